@@ -149,6 +149,19 @@ def run(ctx):
     ok, w = g2.always_after(handlers, ab)
     ctx.check("R5-abort-on-retry", where, bool(ab) and ok, "RetryWithNewPacks handler aborts the half-written pack before re-raising", construct=g.nodes[handlers[0]].text(), message="a packer that raises RetryWithNewPacks leaves its upload pack un-aborted", witness=g.show_path(w) if w else None)
 
+    # ---- R7: repacking a single, already optimal pack never rewrites that pack's live files ----------------------------
+    fnp, gp, wherep = fn_cfg(ctx, GC, "GCCHKPacker._create_pack_from_packs")
+    fin = need(wherep, calling(gp, attr="finish", recv="self.new_pack"), "self.new_pack.finish()")
+    fc_ = calling(gp, attr="finish_content", recv="self.new_pack")
+    same = [n.id for n in gp.nodes if n.kind == "test" and any(isinstance(c_, ast.Compare) and len(c_.ops) == 1 and isinstance(c_.ops[0], ast.Eq) and ".name" in norm(c_) and "_hash.hexdigest()" in norm(c_) for c_ in ast.walk(n.ast))]
+    ok = len(same) == 1
+    if ok:
+        t_succ = [b for (b, l) in gp.succ[same[0]] if l == "T"]
+        rt = gp.reach(t_succ, include_src=True)
+        ab = calling(gp, attr="abort", recv="self.new_pack")
+        g1 = gp.assume({"len(self.packs) == 1": True})
+        ok = not (set(fin) & rt) and bool(set(ab) & rt) and g1.always_before(same, fin)[0] and bool(fc_) and gp.always_before(fc_, same)[0]
+    ctx.check("R7-identical-repack-aborted", wherep, ok, "a repack whose content hash equals the single source pack's name is detected after finish_content() and aborted before finish() (finish() would rewrite the live pack's index files in place under the same name)", message="the 'already optimally packed' case is no longer caught before new_pack.finish(): finish() writes indices/<name>.* through truncating streams, and for an identical repack <name> is the live pack's name — a crash between truncation and write leaves the listed pack unreadable")
     # ---- R6: obsoleting never deletes from the live directories -----------------
     fn = repo.func(PR, f"{COLL}._obsolete_packs")
     dels = [c for c in calls_in(fn) if call_attr(c) in ("delete", "delete_tree", "rmdir", "delete_multi")]
@@ -200,6 +213,7 @@ def _obsolete_arg_provenance(fn):
 
 
 MUTANTS = [
+    Mutant("identical repack detected only after finish()", GC, "        self.new_pack.finish_content()\n        if len(self.packs) == 1:\n            old_pack = self.packs[0]\n            if old_pack.name == self.new_pack._hash.hexdigest():", "        self.new_pack.finish()\n        if len(self.packs) == 1:\n            old_pack = self.packs[0]\n            if old_pack.name == self.new_pack._hash.hexdigest():", expect=["R7-identical-repack-aborted", "R1-finish-before-allocate"]),
     Mutant("allocate before finish in _commit_write_group", PR, "            self._new_pack.finish()\n            self.allocate(self._new_pack)\n", "            self.allocate(self._new_pack)\n            self._new_pack.finish()\n", expect="R1-finish-before-allocate"),
     Mutant("resumed pack allocated without finish", PR, "            resumed_pack.finish()\n            self.allocate(resumed_pack)\n", "            self.allocate(resumed_pack)\n", expect="R1-finish-before-allocate"),
     Mutant("GC packer allocates before finishing", GC, "        self.new_pack.finish()\n        self._pack_collection.allocate(self.new_pack)\n", "        self._pack_collection.allocate(self.new_pack)\n        self.new_pack.finish()\n", expect="R1-finish-before-allocate"),
